@@ -132,6 +132,10 @@ def run_case(case):
         inst, meta = case.get("inst_meta") or W.random_instance(rng, case["cls"])
         if case.get("inst_meta"):
             obs["c01.corpus_cases"] += 1
+        elif meta["mode"] == "edge" and rng.random() < 0.07:
+            # an isolated node in an edge-weighted graph: it is a source and a sink at once, so the one-node route through it is a real
+            # source-to-sink route of the caller's graph
+            inst["spec"]["nodes"].append(["iso_x", {}]); obs["c01.isolated_node_cases"] += 1
         res = models.run(inst, solver_options=SO)
         sample = {"inst": models.brief(inst), "solved": res.get("solved"), "exc": res.get("exc")}
         rep = {"kind": "class", "cls": case["cls"], "rs": case["rs"], "inst_meta": [inst, meta]}
